@@ -82,6 +82,66 @@ Section Tab.
     ("v2_rem_ews", run2 r2 rs (fun a s => o2 (v2_rem_ews O a s)));
     ("v3_rem_ews", run2 r3 rs (fun a s => o3 (v3_rem_ews O a s)));
     ("v4_rem_ews", run2 r4 rs (fun a s => o4 (v4_rem_ews O a s)));
+    ("v1_add_assign", run2 r1 r1 (fun a b => o1 (v1_add_assign O a b)));
+    ("v1_sub_assign", run2 r1 r1 (fun a b => o1 (v1_sub_assign O a b)));
+    ("v1_mul_assign", run2 r1 rs (fun a s => o1 (v1_mul_assign O a s)));
+    ("v1_div_assign", run2 r1 rs (fun a s => o1 (v1_div_assign O a s)));
+    ("v1_rem_assign", run2 r1 rs (fun a s => o1 (v1_rem_assign O a s)));
+    ("v1_add_assign_ew", run2 r1 r1 (fun a b => o1 (v1_add_assign_ew O a b)));
+    ("v1_add_assign_ews", run2 r1 rs (fun a s => o1 (v1_add_assign_ews O a s)));
+    ("v1_sub_assign_ew", run2 r1 r1 (fun a b => o1 (v1_sub_assign_ew O a b)));
+    ("v1_sub_assign_ews", run2 r1 rs (fun a s => o1 (v1_sub_assign_ews O a s)));
+    ("v1_mul_assign_ew", run2 r1 r1 (fun a b => o1 (v1_mul_assign_ew O a b)));
+    ("v1_mul_assign_ews", run2 r1 rs (fun a s => o1 (v1_mul_assign_ews O a s)));
+    ("v1_div_assign_ew", run2 r1 r1 (fun a b => o1 (v1_div_assign_ew O a b)));
+    ("v1_div_assign_ews", run2 r1 rs (fun a s => o1 (v1_div_assign_ews O a s)));
+    ("v1_rem_assign_ew", run2 r1 r1 (fun a b => o1 (v1_rem_assign_ew O a b)));
+    ("v1_rem_assign_ews", run2 r1 rs (fun a s => o1 (v1_rem_assign_ews O a s)));
+    ("v2_add_assign", run2 r2 r2 (fun a b => o2 (v2_add_assign O a b)));
+    ("v2_sub_assign", run2 r2 r2 (fun a b => o2 (v2_sub_assign O a b)));
+    ("v2_mul_assign", run2 r2 rs (fun a s => o2 (v2_mul_assign O a s)));
+    ("v2_div_assign", run2 r2 rs (fun a s => o2 (v2_div_assign O a s)));
+    ("v2_rem_assign", run2 r2 rs (fun a s => o2 (v2_rem_assign O a s)));
+    ("v2_add_assign_ew", run2 r2 r2 (fun a b => o2 (v2_add_assign_ew O a b)));
+    ("v2_add_assign_ews", run2 r2 rs (fun a s => o2 (v2_add_assign_ews O a s)));
+    ("v2_sub_assign_ew", run2 r2 r2 (fun a b => o2 (v2_sub_assign_ew O a b)));
+    ("v2_sub_assign_ews", run2 r2 rs (fun a s => o2 (v2_sub_assign_ews O a s)));
+    ("v2_mul_assign_ew", run2 r2 r2 (fun a b => o2 (v2_mul_assign_ew O a b)));
+    ("v2_mul_assign_ews", run2 r2 rs (fun a s => o2 (v2_mul_assign_ews O a s)));
+    ("v2_div_assign_ew", run2 r2 r2 (fun a b => o2 (v2_div_assign_ew O a b)));
+    ("v2_div_assign_ews", run2 r2 rs (fun a s => o2 (v2_div_assign_ews O a s)));
+    ("v2_rem_assign_ew", run2 r2 r2 (fun a b => o2 (v2_rem_assign_ew O a b)));
+    ("v2_rem_assign_ews", run2 r2 rs (fun a s => o2 (v2_rem_assign_ews O a s)));
+    ("v3_add_assign", run2 r3 r3 (fun a b => o3 (v3_add_assign O a b)));
+    ("v3_sub_assign", run2 r3 r3 (fun a b => o3 (v3_sub_assign O a b)));
+    ("v3_mul_assign", run2 r3 rs (fun a s => o3 (v3_mul_assign O a s)));
+    ("v3_div_assign", run2 r3 rs (fun a s => o3 (v3_div_assign O a s)));
+    ("v3_rem_assign", run2 r3 rs (fun a s => o3 (v3_rem_assign O a s)));
+    ("v3_add_assign_ew", run2 r3 r3 (fun a b => o3 (v3_add_assign_ew O a b)));
+    ("v3_add_assign_ews", run2 r3 rs (fun a s => o3 (v3_add_assign_ews O a s)));
+    ("v3_sub_assign_ew", run2 r3 r3 (fun a b => o3 (v3_sub_assign_ew O a b)));
+    ("v3_sub_assign_ews", run2 r3 rs (fun a s => o3 (v3_sub_assign_ews O a s)));
+    ("v3_mul_assign_ew", run2 r3 r3 (fun a b => o3 (v3_mul_assign_ew O a b)));
+    ("v3_mul_assign_ews", run2 r3 rs (fun a s => o3 (v3_mul_assign_ews O a s)));
+    ("v3_div_assign_ew", run2 r3 r3 (fun a b => o3 (v3_div_assign_ew O a b)));
+    ("v3_div_assign_ews", run2 r3 rs (fun a s => o3 (v3_div_assign_ews O a s)));
+    ("v3_rem_assign_ew", run2 r3 r3 (fun a b => o3 (v3_rem_assign_ew O a b)));
+    ("v3_rem_assign_ews", run2 r3 rs (fun a s => o3 (v3_rem_assign_ews O a s)));
+    ("v4_add_assign", run2 r4 r4 (fun a b => o4 (v4_add_assign O a b)));
+    ("v4_sub_assign", run2 r4 r4 (fun a b => o4 (v4_sub_assign O a b)));
+    ("v4_mul_assign", run2 r4 rs (fun a s => o4 (v4_mul_assign O a s)));
+    ("v4_div_assign", run2 r4 rs (fun a s => o4 (v4_div_assign O a s)));
+    ("v4_rem_assign", run2 r4 rs (fun a s => o4 (v4_rem_assign O a s)));
+    ("v4_add_assign_ew", run2 r4 r4 (fun a b => o4 (v4_add_assign_ew O a b)));
+    ("v4_add_assign_ews", run2 r4 rs (fun a s => o4 (v4_add_assign_ews O a s)));
+    ("v4_sub_assign_ew", run2 r4 r4 (fun a b => o4 (v4_sub_assign_ew O a b)));
+    ("v4_sub_assign_ews", run2 r4 rs (fun a s => o4 (v4_sub_assign_ews O a s)));
+    ("v4_mul_assign_ew", run2 r4 r4 (fun a b => o4 (v4_mul_assign_ew O a b)));
+    ("v4_mul_assign_ews", run2 r4 rs (fun a s => o4 (v4_mul_assign_ews O a s)));
+    ("v4_div_assign_ew", run2 r4 r4 (fun a b => o4 (v4_div_assign_ew O a b)));
+    ("v4_div_assign_ews", run2 r4 rs (fun a s => o4 (v4_div_assign_ews O a s)));
+    ("v4_rem_assign_ew", run2 r4 r4 (fun a b => o4 (v4_rem_assign_ew O a b)));
+    ("v4_rem_assign_ews", run2 r4 rs (fun a s => o4 (v4_rem_assign_ews O a s)));
     ("v1_sum", run1 r1 (fun a => os (v1_sum a)));
     ("v2_sum", run1 r2 (fun a => os (v2_sum O a)));
     ("v3_sum", run1 r3 (fun a => os (v3_sum O a)));
